@@ -98,6 +98,19 @@ def mode_structure(tier, seed, part='structure'):
                 except Exception as e:      # every size must be served
                     cases += 1
                     bad('every requested size is served (observations x draws array)', k, n, r, got=f'{type(e).__name__}: {str(e)[:120]}')
+            # history: the same sizes again in the REVERSE order of the catalogue (normal types before the uniform ones they are
+            # built on): every call still returns observations x draws, deterministic sequences do not depend on earlier calls
+            for key in reversed(list(out)):
+                cases += 1
+                try:
+                    y = gen(key, n, r, s)
+                except Exception as e:
+                    bad('history: every call returns observations x draws, whatever was generated before', key, n, r, got=f'{type(e).__name__}: {str(e)[:120]}')
+                    continue
+                if not isinstance(y, np.ndarray) or y.shape != (n, r):
+                    bad('history: every call returns observations x draws, whatever was generated before', key, n, r, got=str(getattr(y, 'shape', None)))
+                elif 'HALTON' in key and not np.array_equal(y, np.asarray(out[key]).reshape(n, r) if np.asarray(out[key]).size == n * r else out[key]):
+                    bad('history: deterministic sequences do not depend on earlier calls', key, n, r)
             for key, x in out.items():
                 cases += 1
                 if not isinstance(x, np.ndarray) or x.shape != (n, r):
@@ -272,7 +285,12 @@ def mode_generate_draws(tier, seed):
 
 def main():
     mode, tier, seed = sys.argv[1], sys.argv[2], int(sys.argv[3])
-    cases, fails = globals()['mode_' + mode](tier, seed)
+    try:
+        cases, fails = globals()['mode_' + mode](tier, seed)
+    except Exception as e:          # a comparison broke down on what the generators returned (e.g. arrays of another shape)
+        import traceback
+        cases, fails = 1, [{'check': 'the generators return arrays the structural checks can be evaluated on',
+                            'got': f'{type(e).__name__}: {str(e)[:200]}', 'where': traceback.format_exc()[-400:]}]
     print(json.dumps({'cases': cases, 'failures': fails[:20]}, default=str))
     return 1 if fails else 0
 
